@@ -301,6 +301,12 @@ Definition step (t : tree) (o : op) : tree :=
   end.
 Definition run (ops : list op) : tree := fold_left step ops E.
 
+(* the zone allocator's discipline: a key is inserted only after find did not find it *)
+Definition guarded (t : tree) (o : op) : Prop :=
+  match o with Insert _ k => find k t = None | _ => True end.
+Fixpoint all_guarded (t : tree) (ops : list op) : Prop :=
+  match ops with [] => True | o :: ops' => guarded t o /\ all_guarded (step t o) ops' end.
+
 (* ------------------------------------------------------------------ *)
 (* specification predicates *)
 Definition bk (c : color) : nat := match c with Black => 1%nat | Red => 0%nat end.
